@@ -150,8 +150,30 @@ def main(argv=None):
                         if new:
                             r['by'] = '%s %s' % (new[0]['rule'], new[0]['construct'])
                     rv.append(r)
-                controls['fix_reverts_total'] = len(rv)
-                controls['fix_reverts_reported'] = len([r for r in rv if r['status'] in ('killed', 'fail-closed')])
+                # ... and every confirmed seeded regression of this property (seeded/<id>/patch.diff) applied to the current tree must be reported
+                sv = []
+                for sid, pp, expected in selftest.seed_entries(prop):
+                    ov = selftest.patch_overlay(a.repo, pp)
+                    name = 'seeded regression %s' % sid
+                    if ov is None:
+                        sv.append(dict(name=name, status='skipped', why='patch does not apply to the current tree'))
+                        continue
+                    st, payload = _run_variant((prop, a.repo, ov, 'quick'))
+                    r = dict(name=name)
+                    if st != 'ok':
+                        r['status'] = 'fail-closed'
+                        r['why'] = payload.strip().splitlines()[-1][:200]
+                    else:
+                        new = [d for k, d in payload if k not in base_keys]
+                        r['status'] = 'killed' if new else ('MISSED' if expected else 'missed (recorded in seeded/%s/meta.json)' % sid)
+                        if new:
+                            r['by'] = '%s %s' % (new[0]['rule'], new[0]['construct'])
+                    sv.append(r)
+                controls['seeds_total'] = len(sv)
+                controls['seeds_reported'] = len([r for r in sv if r['status'] in ('killed', 'fail-closed')])
+                rv = rv + sv
+                controls['fix_reverts_total'] = len(rv) - len(sv)
+                controls['fix_reverts_reported'] = len([r for r in rv if r['status'] in ('killed', 'fail-closed') and not r['name'].startswith('seeded regression')])
                 controls['detail'] += rv
                 mres = mres + rv
             for r in mres:
